@@ -5,11 +5,23 @@ import json, os, subprocess
 HERE = os.path.dirname(os.path.abspath(__file__))
 
 E1 = "explicit-state BFS over event histories of the real dht.Server in a testing/synctest bubble (fake clock, fake socket), canonical-state dedup, oracle on every transition"
-E2 = "stateless DFS over scheduler choices at sync points (import-rewritten sync/chansync shims) of the real traversal/bep44 code with iterative preemption bounding"
+E2 = "stateless DFS over scheduler choices at synchronisation points of the real traversal code (sync/chansync imports rewritten to scheduler shims by a build-time overlay, real code otherwise unmodified) inside a testing/synctest bubble: iterative preemption bounding, state-key pruning, exhaustive completion orders"
 E3 = "exhaustive enumeration of a bounded structured input domain against an independent reference implementation"
 
 # id -> (built?, level, technique, level text, level note, design ref)
 CHECKS = {
+    "C02": dict(level="model_checking", technique=E2,
+                text="The real traversal.Operation is run under a controlled scheduler (every mutex Lock, BroadcastCond.Signaled/Broadcast, SetOnce.Set, the return of every DoQuery, and harness AddNodes/Stop calls are scheduling points; mutex ownership modelled). Fine tier: 15 designed scenarios (chains, fill race, duplicate IDs, data filter, node filter incl. peers answering under a filtered ID, late AddNodes, one address under several IDs, repeated addresses, IPv4-mapped addresses, silent peers, Stop at any point) explored by state-pruned DFS with <=1 preemption (quick) / unbounded (thorough), free non-preemptive switches and freely placed stall polls, plus unpruned iterative preemption bounding on the two smallest scenarios. Coarse tier: every response graph on 3 peers + an ID-less seed (4096) with at most one silent or lying peer x K,Alpha x seed sets, all completion orders. Oracle on the result set after Stopped(): size <= K, every member answered (id, address, data as returned) and passes node and data filter, no filter-passing responder outside is strictly closer than a member, the set does not change after Stopped() fired, honest networks yield exactly the K closest.",
+                note="state pruning relies on a state key (thread positions, operation snapshot, harness log); the unpruned tier does not; equal-distance ties are free (strict comparisons only)",
+                ref="DESIGN.md 5/C02"),
+    "C03": dict(level="model_checking", technique=E2,
+                text="Same exploration as C02. Oracle: whenever a (freely placed, non-blocking) poll obtains a stall value no DoQuery is in flight, the operation counts no outstanding query, and every contact handed to the operation (completed AddNodes, replies of returned queries) that passes the filter has been queried unless the result set is full and the contact is strictly farther than its farthest member or has no ID; every maximal schedule ends, within a step horizon, in a state where the lookup reports stalled (else: lost wake-up / deadlock / non-termination), and after Stop in a state where Stopped() is readable; mutex misuse and panics are violations.",
+                note="a consumer blocked in a receive on Stalled() (select tie in the run loop) is not modelled: consumers poll; see DESIGN.md C03 note",
+                ref="DESIGN.md 5/C03"),
+    "C04": dict(level="model_checking", technique=E2,
+                text="Same exploration as C02. Monitor inside the harness DoQuery and in every quiescent state: concurrent DoQuery calls <= Alpha at every entry; each address (IP, port) is passed to DoQuery at most once per lookup however often and under however many IDs it is reported (replies, seeds, AddNodes, 4-byte and IPv4-mapped forms); an address rejected by the node filter is never queried; once Stop has returned, the context of every DoQuery still in flight is cancelled in the next quiescent state.",
+                note="Alpha in {1,2,3}; addresses are a small IPv4 set",
+                ref="DESIGN.md 5/C04"),
     "C05": dict(level="model_checking", technique=E1,
                 text="All event histories up to the stated depth (full alphabet depth 2 / core alphabet depth 4 quick; deeper thorough) from 5 start states x 2 configurations are executed on the real Server; after every event the table snapshot must be a well-formed Kademlia table and agree with NumNodes/Stats/Nodes/WriteStatus. Bounded exhaustive, not a proof.",
                 note="go1.26.8 synctest runtime; VerifTable hook snapshot is trusted to copy the table faithfully; eviction victim among equally eligible entries is chosen by Go map order and not enumerated",
